@@ -820,3 +820,84 @@ def check_C18(sc, v, tier, seed, replay):
               "{-t, -x, '', '-t -t'} (all of length <= 2, sampled|all of length 3): banner / usage / N2 traffic; distinct = distinct assignment or argv")
     v.assumptions = ["YAML is written by the harness's own emitter (double-quoted scalars)", "interface names are only checked at structure level (traffic mode cannot start in the sandbox)"]
     _reject_to_violation(v, rejects, lambda r, e: "%s:%s" % (e.get("ev"), r["why"][:60]))
+
+
+# ------------------------------------------------------------------------------------------------
+# C20  concurrency
+# ------------------------------------------------------------------------------------------------
+def check_C20(sc, v, tier, seed, replay):
+    import re
+    import subprocess
+    # (1) design level + schedule generation: every interleaving of the gate-point segments
+    shapes = [(2, 2), (3, 1)] if tier == "quick" else [(2, 2), (3, 1), (2, 3), (3, 2)]
+    scheds = []
+    for (g, n) in shapes:
+        for impl, emit in (("shared", False), ("locked", False), ("local", True)):
+            d = sc.specdir()
+            cfg = "CONSTANTS G = %d NCalls = %d Impl = \"%s\" Emit = %s\nSPECIFICATION Spec\nINVARIANT ResultsSequential\nCHECK_DEADLOCK FALSE\n" % (
+                g, n, impl, "TRUE" if emit else "FALSE")
+            r = vlib.run_tlc(d, "Conc", cfg, name="MCConc-%s-%d-%d" % (impl, g, n), timeout=1200, workers=1 if emit else vlib.NCPU, heap="8g")
+            v.add_tlc([r])
+            if impl == "shared":
+                if r.ok:
+                    raise HarnessError("Conc: the shared-state model does not violate ResultsSequential (model is vacuous)")
+            else:
+                if not r.ok:
+                    raise HarnessError("Conc (%s) failed: %s" % (impl, r.error))
+            if emit:
+                for line in r.out.splitlines():
+                    m = re.match(r'^"?SCHED <<([0-9, ]*)>>"?$', line.strip())
+                    if m:
+                        scheds.append([int(x) for x in m.group(1).split(",")])
+    if tier == "quick" and len(scheds) > 1500:
+        import random
+        rnd = random.Random(seed)
+        scheds = rnd.sample(scheds, 1500)
+    v.extra["schedules"] = len(scheds)
+    sp = os.path.join(sc.work, "schedules.ndjson")
+    open(sp, "w").write("\n".join(json.dumps(s) for s in scheds) + "\n")
+    # (2) replay through the gate hooks, (3) free-running stress under the race detector
+    sc.build(["rec-conc"], race=True)
+    trace = os.path.join(sc.work, "conc.ndjson")
+    env = {"GORACE": "halt_on_error=0 exitcode=0 log_path=" + os.path.join(sc.work, "race")}
+    sc.run("rec-conc", ["-seed", seed, "-out", trace, "-schedules", sp], env=env, timeout=1800)
+    evs = open(trace).read().splitlines()
+    for gcount in ([2, 8] if tier == "quick" else [2, 8, 64]):
+        t2 = os.path.join(sc.work, "stress%d.ndjson" % gcount)
+        sc.run("rec-conc", ["-seed", seed, "-out", t2, "-stress", gcount, "-rounds", 12 if tier == "quick" else 40], env=env, timeout=1800)
+        evs += open(t2).read().splitlines()
+    import glob
+    races = 0
+    where = set()
+    for f in glob.glob(os.path.join(sc.work, "race.*")):
+        txt = open(f).read()
+        races += txt.count("WARNING: DATA RACE")
+        for m in re.finditer(r"^\s+((?:free5gclib|tglib|stgutg)[^\s(]*)\(", txt, re.M):
+            where.add(m.group(1))
+    if races:
+        evs.append(json.dumps({"ev": "Race", "id": "race", "count": races, "where": ", ".join(sorted(where))[:400]}))
+    full = os.path.join(sc.work, "conc-all.ndjson")
+    open(full, "w").write("\n".join(evs) + "\n")
+    results, rejects, lines = vlib.validate_trace(sc, "TraceConc", full)
+    v.add_tlc(results)
+    v.traces = len(scheds) + 3
+    ops = [json.loads(l) for l in lines]
+    v.evaluations = len([e for e in ops if e["ev"] == "Op"])
+    for e in ops:
+        if e["ev"] == "Sched":
+            v.distinct.add(tuple(e["order"]))
+        elif e["ev"] == "Op" and e["op"] == "workload":
+            v.distinct.add(e["id"])
+    v.extra["infeasible_schedules"] = len([e for e in ops if e["ev"] == "Sched" and not e["feasible"]])
+    v.samples = [e for e in ops if e["ev"] == "Sched"][:2] + [e for e in ops if e["ev"] == "Op"][:1]
+    v.rule = ("every interleaving of the gate-point segments (InitSnow3g | gap | GenerateKeystream) of G goroutines x N calls enumerated by TLC from "
+              "Conc.tla (G x N in {2x2, 3x1} quick, plus {2x3, 3x2} thorough; quick samples 1500) replayed through hook H4 with results compared to "
+              "the same call executed alone (and to NasAlg for a sample); free-running stress with 2, 8 (, 64) goroutines over NGAP / NAS codec, "
+              "NAS protection, NEA/NIA 1 and 2 and key derivation under the race detector; distinct = distinct schedule or stress worker")
+    v.assumptions = ["gate points exist only in the SNOW 3G routines; other shared state is only seen by the stress run and the race detector"]
+
+    def key(r, e):
+        if e.get("ev") == "Race":
+            return "Race:" + e.get("where", "")[:80]
+        return "Op:%s:%s" % (e.get("op"), "stress" if str(e.get("id", "")).startswith("stress") else "schedule")
+    _reject_to_violation(v, rejects, key)
